@@ -184,9 +184,12 @@ func init() {
 	})
 	add(&Property{
 		ID: "C13", Title: "no data races inside the library under any concurrent use of its concurrent APIs",
-		Sels:        []Sel{{Run: "R1", Scope: ConcurrentPkgs, Rules: []string{"R1", "R11a", "R11c"}}},
-		Floors:      map[string]int{"R1a": 60, "R1b": 12, "R1c": 2, "R1d": 4, "R1a-opt": 1},
-		Explanation: "Static lockset analysis (R1) over the 14 packages of the concurrency-safe types: for every struct field and every local captured by an escaping closure, all non-construction accesses reached from any entry point hold a common lock, or the variable is never written, atomic, or published by an atomic election followed by a channel close (R1d); callback fields are invoked under their contract lock (R1c); option callbacks run on freshly constructed containers (R1a-opt); every acquired lock is released on every non-panicking path (R11a).",
+		Sels: []Sel{
+			{Run: "R1", Scope: ConcurrentPkgs, Rules: []string{"R1", "R11a", "R11c"}},
+			{Run: "R1ssa", Scope: ConcurrentPkgs, Rules: []string{"R1ssa"}},
+		},
+		Floors:      map[string]int{"R1a": 60, "R1b": 12, "R1c": 2, "R1d": 4, "R1a-opt": 1, "R1ssa": 2},
+		Explanation: "Static lockset analysis (R1) over the 14 packages of the concurrency-safe types: for every struct field and every local captured by an escaping closure, all non-construction accesses reached from any entry point hold a common lock, or the variable is never written, atomic, or published by an atomic election followed by a channel close (R1d); callback fields are invoked under their contract lock (R1c); option callbacks run on freshly constructed containers (R1a-opt); every acquired lock is released on every non-panicking path (R11a). Cross-check (R1ssa): every field-access instruction that go/ssa builds for these packages (generic methods and closures included) is matched by an access R1 analysed in some calling context, so the access set the verdict rests on is complete with respect to the compiler's own IR.",
 		NotDecided:  "races on memory the library reaches only through client values of type T; instance confusion excluded by A1; internals of third-party packages; anything in _test.go files.",
 		Assumptions: []string{A1, A3, A4, A5},
 		Technique:   "static lockset analysis (per-variable consistent lockset, top-down lockset propagation over resolved calls, AST path walker)",
